@@ -23,7 +23,10 @@ def main():
         f = os.path.join(D, pid + ".json")
         if os.path.exists(f):
             with open(f) as fh:
-                checks.append(json.load(fh))
+                c = json.load(fh)
+            # quick_cmd takes its tier from VERIF_TIER (default quick); thorough_cmd names its tier explicitly
+            c["quick_cmd"] = c["quick_cmd"].replace(" --tier quick", "")
+            checks.append(c)
         else:
             na.append({"property_id": pid, "reason": reasons.get(pid, "no check registered yet: the model, theorems and correspondence for this property are still being built (DESIGN.md §4 describes the plan); nothing is claimed")})
     m["checks"] = checks
